@@ -2,7 +2,7 @@
 use crate::api::*;
 use crate::log::Log;
 use crate::model::cal::{self, cal};
-use crate::model::lunar_seq::lunar_seq;
+use crate::model::lunar_seq::{lunar_seq, LM};
 use crate::model::terms::terms;
 use crate::util::{guard, mix, par_range, Rng};
 use crate::{Cfg, Meta, Tier};
@@ -131,6 +131,86 @@ fn sf_tuple(f: &SolarFestival) -> (i64, Ymd, i64, String, i64) {
   (f.get_index() as i64, ymd(&f.get_day()), f.get_start_year() as i64, f.get_name(), matches!(f.get_type(), FestivalType::DAY) as i64)
 }
 
+/// one SolarFestival::from_index(y, idx) look-up against the table
+fn solar_index_one(y: i64, r: &SolarRec, log: &mut Log) {
+  log.ev(1);
+  let key = format!("{:04}-{:02}", y, r.idx);
+  let want = if y >= r.start { Some((r.idx, (y, r.m, r.d), r.start, SOLAR_FESTIVAL_NAMES[r.idx as usize].to_string(), 1)) } else { None };
+  match guard(|| SolarFestival::from_index(y as isize, r.idx as usize).map(|f| sf_tuple(&f))) {
+    Ok(got) => {
+      if got != want {
+        log.violate(format!("C20/solar-festival-by-index/{}", key), "SolarFestival::from_index", key.clone(), format!("{:?}", got), format!("{:?}", want));
+      }
+    }
+    Err(msg) => log.violate(format!("C20/solar-festival-by-index/{}", key), "SolarFestival::from_index", key.clone(), format!("panic: {}", msg), format!("{:?}", want)),
+  }
+  log.count("solar.by_index_lookups", 1);
+}
+
+/// one SolarDay::get_festival look-up against the table
+fn solar_date_one(n: i64, recs: &[SolarRec], log: &mut Log) {
+  let c = cal();
+  let (y, m, d) = c.date(n);
+  log.ev(1);
+  let want = recs.iter().find(|r| r.m == m && r.d == d && y >= r.start);
+  let key = cal::fmt_dn(n);
+  match guard(|| (sd_of_dn(n).get_festival().map(|f| sf_tuple(&f)), SolarFestival::from_ymd(y as isize, m as usize, d as usize).map(|f| sf_tuple(&f)))) {
+    Ok((got, got2)) => {
+      let w = want.map(|r| (r.idx, (y, m, d), r.start, SOLAR_FESTIVAL_NAMES[r.idx as usize].to_string(), 1));
+      if got != w || got2 != w {
+        log.violate(format!("C20/solar-festival-by-date/{}", key), "SolarDay::get_festival", key.clone(), format!("{:?} / from_ymd {:?}", got, got2), format!("{:?}", w));
+      }
+      if want.is_some() {
+        log.count("solar.festival_days_found", 1);
+        log.nt(1);
+      } else if recs.iter().any(|r| r.m == m && r.d == d) {
+        log.count("solar.festival_days_before_founding_year", 1);
+        log.nt(1);
+      }
+    }
+    Err(msg) => log.violate(format!("C20/solar-festival-by-date/{}", key), "SolarDay::get_festival", key.clone(), format!("panic: {}", msg), "an answer".into()),
+  }
+}
+
+/// (year, index) pairs a careless memo key would confuse: decimal concatenation in either order, and year*K+index
+/// with K below the list size
+fn colliding_index_pairs(size: i64, y_lo: i64, y_hi: i64, arithmetic_stride: i64, seed: u64) -> Vec<((i64, i64), (i64, i64))> {
+  use std::collections::HashMap;
+  let mut out = vec![];
+  for fmt in 0..2 {
+    let mut map: HashMap<String, Vec<(i64, i64)>> = HashMap::new();
+    for y in y_lo..=y_hi {
+      for i in 0..size {
+        let k = if fmt == 0 { format!("{}{}", y, i) } else { format!("{}{}", i, y) };
+        map.entry(k).or_default().push((y, i));
+      }
+    }
+    let mut groups: Vec<Vec<(i64, i64)>> = map.into_values().filter(|g| g.len() > 1).collect();
+    groups.sort();
+    for g in groups {
+      for a in 0..g.len() {
+        for b in a + 1..g.len() {
+          out.push((g[a], g[b]));
+        }
+      }
+    }
+  }
+  for k in [8i64, 10, 12] {
+    if k >= size {
+      continue;
+    }
+    for y in y_lo..y_hi {
+      if y % arithmetic_stride != (seed as i64) % arithmetic_stride {
+        continue;
+      }
+      for j in 0..size - k {
+        out.push(((y, k + j), (y + 1, j)));
+      }
+    }
+  }
+  out
+}
+
 fn solar_year(y: i64, recs: &[SolarRec], by_date: bool, log: &mut Log) {
   let c = cal();
   // by date
@@ -138,43 +218,22 @@ fn solar_year(y: i64, recs: &[SolarRec], by_date: bool, log: &mut Log) {
     let lo = c.year_first(y);
     let hi = c.year_first(y + 1) - 1;
     for n in lo..=hi {
-      let (_, m, d) = c.date(n);
-      log.ev(1);
-      let want = recs.iter().find(|r| r.m == m && r.d == d && y >= r.start);
-      let key = cal::fmt_dn(n);
-      match guard(|| sd_of_dn(n).get_festival().map(|f| sf_tuple(&f))) {
-        Ok(got) => {
-          let w = want.map(|r| (r.idx, (y, m, d), r.start, SOLAR_FESTIVAL_NAMES[r.idx as usize].to_string(), 1));
-          if got != w {
-            log.violate(format!("C20/solar-festival-by-date/{}", key), "SolarDay::get_festival", key.clone(), format!("{:?}", got), format!("{:?}", w));
-          }
-          if want.is_some() {
-            log.count("solar.festival_days_found", 1);
-            log.nt(1);
-          } else if recs.iter().any(|r| r.m == m && r.d == d) {
-            log.count("solar.festival_days_before_founding_year", 1);
-            log.nt(1);
-          }
-        }
-        Err(msg) => log.violate(format!("C20/solar-festival-by-date/{}", key), "SolarDay::get_festival", key.clone(), format!("panic: {}", msg), "an answer".into()),
+      solar_date_one(n, recs, log);
+    }
+    // month/day pairs whose digits concatenate to the same string, back to back in both orders
+    for k in 1..=9i64 {
+      for (a, b) in [((1, 10 + k), (11, k)), ((1, 20 + k), (12, k)), ((11, k), (1, 10 + k)), ((12, k), (1, 20 + k))] {
+        solar_date_one(c.dn(y, a.0, a.1), recs, log);
+        solar_date_one(c.dn(y, b.0, b.1), recs, log);
+        log.count("solar.digit_colliding_date_pairs", 1);
       }
     }
   }
   // by index and stepping
   let size = recs.len() as i64;
   for r in recs {
-    log.ev(1);
     let key = format!("{:04}-{:02}", y, r.idx);
-    let want = if y >= r.start { Some((r.idx, (y, r.m, r.d), r.start, SOLAR_FESTIVAL_NAMES[r.idx as usize].to_string(), 1)) } else { None };
-    match guard(|| SolarFestival::from_index(y as isize, r.idx as usize).map(|f| sf_tuple(&f))) {
-      Ok(got) => {
-        if got != want {
-          log.violate(format!("C20/solar-festival-by-index/{}", key), "SolarFestival::from_index", key.clone(), format!("{:?}", got), format!("{:?}", want));
-        }
-      }
-      Err(msg) => log.violate(format!("C20/solar-festival-by-index/{}", key), "SolarFestival::from_index", key.clone(), format!("panic: {}", msg), format!("{:?}", want)),
-    }
-    log.count("solar.by_index_lookups", 1);
+    solar_index_one(y, r, log);
     if y >= r.start {
       let mut rng = Rng::new(mix(y as u64, r.idx as u64 ^ 0xC20));
       for n in [0i64, 1, -1, size, -size, size + 1, rng.range(-25, 25), rng.range(-400, 400)] {
@@ -232,11 +291,19 @@ fn lf_tuple(f: &LunarFestival) -> (i64, Lymd, String) {
 }
 
 fn lunar_by_index(y: i64, kinds: &[LunarKind], log: &mut Log) {
+  let size = kinds.len() as i64;
+  for i in 0..size {
+    lunar_index_one(y, i, kinds, log);
+    lunar_index_steps(y, i, size, log);
+  }
+}
+
+/// one LunarFestival::from_index(y, i) look-up against the oracle
+fn lunar_index_one(y: i64, i: i64, kinds: &[LunarKind], log: &mut Log) {
   let seq = lunar_seq();
   let t = terms();
-  let size = kinds.len() as i64;
-  for (i, kind) in kinds.iter().enumerate() {
-    let i = i as i64;
+  let kind = &kinds[i as usize];
+  {
     log.ev(1);
     log.count("lunar.by_index_lookups", 1);
     let key = format!("{:04}-{:02}", y, i);
@@ -299,7 +366,13 @@ fn lunar_by_index(y: i64, kinds: &[LunarKind], log: &mut Log) {
       Ok(None) => log.violate(format!("C20/lunar-festival-by-index/{}", key), "LunarFestival::from_index", key.clone(), "None".into(), format!("index {} on {:?}", i, want_day)),
       Err(msg) => log.violate(format!("C20/lunar-festival-by-index/{}", key), "LunarFestival::from_index", key.clone(), format!("panic: {}", msg), format!("index {} on {:?}", i, want_day)),
     }
-    // stepping along the list with year carry
+  }
+}
+
+/// stepping along the list with year carry
+fn lunar_index_steps(y: i64, i: i64, size: i64, log: &mut Log) {
+  let key = format!("{:04}-{:02}", y, i);
+  {
     if y % 7 == 3 || y < 40 {
       for n in [-14i64, -13, -1, 0, 1, 12, 13, 14, 27] {
         let ord = y * size + i + n;
@@ -327,6 +400,27 @@ fn lunar_by_date(y: i64, kinds: &[LunarKind], log: &mut Log) {
   let seq = lunar_seq();
   for lm in seq.year_slice(y) {
     for d in 1..=lm.days {
+      lunar_date_one(lm, d, kinds, log);
+    }
+  }
+  // month/day pairs whose digits concatenate to the same string, back to back in both orders
+  let find = |m: i64| seq.year_slice(y).iter().find(|lm| lm.m == m);
+  for k in 1..=9i64 {
+    for (a, b) in [((1, 10 + k), (11, k)), ((1, 20 + k), (12, k)), ((11, k), (1, 10 + k)), ((12, k), (1, 20 + k))] {
+      if let (Some(ma), Some(mb)) = (find(a.0), find(b.0)) {
+        if a.1 <= ma.days && b.1 <= mb.days {
+          lunar_date_one(ma, a.1, kinds, log);
+          lunar_date_one(mb, b.1, kinds, log);
+          log.count("lunar.digit_colliding_date_pairs", 1);
+        }
+      }
+    }
+  }
+}
+
+fn lunar_date_one(lm: &LM, d: i64, kinds: &[LunarKind], log: &mut Log) {
+  {
+    {
       log.ev(1);
       log.count("lunar.dates_looked_up", 1);
       let key = fmt_lymd((lm.y, lm.m, d));
@@ -531,6 +625,24 @@ pub fn run(cfg: &Cfg) -> (Log, Meta) {
       Tier::Quick => (1..=9998).filter(|y| y % 25 == (cfg.seed % 25) as i64 || *y <= 30 || (230..=245).contains(y) || (1570..=1600).contains(y) || (1900..=2100).contains(y)).collect(),
     };
     log.merge(par_range(idx_years.len(), 2, |i, l| lunar_by_index(idx_years[i], &kinds, l)));
+    // (year, index) pairs that a careless memo key would confuse, looked up back to back (order alternates)
+    let lpairs = colliding_index_pairs(kinds.len() as i64, 1, 9998, cfg.tier.pick(10, 1), cfg.seed);
+    log.merge(par_range(lpairs.len(), 8, |i, l| {
+      let (a, b) = if i % 2 == 0 { lpairs[i] } else { (lpairs[i].1, lpairs[i].0) };
+      lunar_index_one(a.0, a.1, &kinds, l);
+      lunar_index_one(b.0, b.1, &kinds, l);
+      l.count("lunar.colliding_index_pairs", 1);
+      l.nt(1);
+    }));
+    if !srecs.is_empty() {
+      let spairs = colliding_index_pairs(srecs.len() as i64, 1, 9998, cfg.tier.pick(10, 1), cfg.seed);
+      log.merge(par_range(spairs.len(), 8, |i, l| {
+        let (a, b) = if i % 2 == 0 { spairs[i] } else { (spairs[i].1, spairs[i].0) };
+        solar_index_one(a.0, &srecs[a.1 as usize], l);
+        solar_index_one(b.0, &srecs[b.1 as usize], l);
+        l.count("solar.colliding_index_pairs", 1);
+      }));
+    }
     let date_years: Vec<i64> = match cfg.tier {
       Tier::Thorough => (1900..=2100).collect(),
       Tier::Quick => (1900..=2100).filter(|y| y % 10 == (cfg.seed % 10) as i64 || *y == 2033 || *y == 2034).collect(),
@@ -544,12 +656,15 @@ pub fn run(cfg: &Cfg) -> (Log, Meta) {
   log.floor("lunar.by_index_lookups", cfg.tier.pick(5_000, 120_000));
   log.floor("lunar.dates_looked_up", cfg.tier.pick(5_000, 70_000));
   log.floor("lunar.festival_days_found", cfg.tier.pick(200, 2_400));
+  log.floor("lunar.colliding_index_pairs", cfg.tier.pick(5_000, 30_000));
+  log.floor("lunar.digit_colliding_date_pairs", cfg.tier.pick(500, 6_000));
+  log.floor("solar.digit_colliding_date_pairs", 7_000);
   log.floor("holiday.records", 500);
   log.floor("holiday.records_visited_by_walking", 500);
   log.floor("holiday.membership_dates", 14_000);
   let meta = Meta {
     rule: format!(
-      "civil festivals: every date of 1900..2100 (found <=> month-day in the table and year >= founding year; index, name, start year, type), from_index for every (year, index) of {} years and an index past the list, next(n) for 8 step counts from every founded festival; lunar festivals: from_index for every (year, index 0..12) of {} years (falls on the oracle's day: fixed lunar date, Qingming / winter-solstice term day via the enumerated months, last day of the year; its day's own lookup returns it or an earlier-listed festival sharing the day; term index), next(n) for n in {{-14,-13,-1,0,1,12,13,14,27}} on 1/7 of the years, and every lunar date of {} years of 1900..2100 by date (found <=> the oracle says so, leap months never); holidays: all records of the raw table (13-character parse, real dates, strictly increasing, offset lands on a rest-day record, returned by from_ymd / get_legal_holiday with flag and name), next(n) for 0, +-1 and 2-4 seeded n from every record, full forward and backward walks, membership of every date 1995..2035, and every date whose digits occur misaligned across a record border. Oracle parsers are the harness' own.",
+      "civil festivals: every date of 1900..2100 (found <=> month-day in the table and year >= founding year; index, name, start year, type), from_index for every (year, index) of {} years and an index past the list, next(n) for 8 step counts from every founded festival; lunar festivals: from_index for every (year, index 0..12) of {} years (falls on the oracle's day: fixed lunar date, Qingming / winter-solstice term day via the enumerated months, last day of the year; its day's own lookup returns it or an earlier-listed festival sharing the day; term index), next(n) for n in {{-14,-13,-1,0,1,12,13,14,27}} on 1/7 of the years, and every lunar date of {} years of 1900..2100 by date (found <=> the oracle says so, leap months never); history: every pair of (year, index) whose decimal concatenation in either order coincides, and (on 1/10 of the years in quick, all in thorough) whose year*K+index coincide for K in 8, 10, 12, looked up back to back in alternating order, and the month/day pairs (1,1k)/(11,k), (1,2k)/(12,k) back to back in both orders in every by-date year; holidays: all records of the raw table (13-character parse, real dates, strictly increasing, offset lands on a rest-day record, returned by from_ymd / get_legal_holiday with flag and name), next(n) for 0, +-1 and 2-4 seeded n from every record, full forward and backward walks, membership of every date 1995..2035, and every date whose digits occur misaligned across a record border. Oracle parsers are the harness' own.",
       match cfg.tier {
         Tier::Thorough => 9998,
         Tier::Quick => 630,
